@@ -34,12 +34,12 @@ def load_contracts():
 
 
 def _verify_one(job):
-    kind, name = job
+    kind, name = job[0], job[1]
     try:
         load_contracts()
         from pyvc import verify
         if kind == 'fn':
-            r = verify.verify_function(name)
+            r = verify.verify_function(name, case=job[2] if len(job) > 2 else None)
         else:
             r = verify.verify_lemma(name)
         out = r.to_json()
@@ -52,7 +52,14 @@ def _verify_one(job):
 
 def run_verification(pid, nproc=None):
     api = load_contracts()
-    jobs = [('fn', ident) for ident in api.ORDER if pid in api.REGISTRY[ident].props]
+    jobs = []
+    for ident in api.ORDER:
+        c = api.REGISTRY[ident]
+        if pid in c.props:
+            if c.split and not c.trusted:
+                jobs += [('fn', ident, k) for k in range(len(c.split))]
+            else:
+                jobs.append(('fn', ident))
     jobs += [('lemma', n) for n, l in api.LEMMAS.items() if pid in l.props]
     trusted = [ident for ident in api.ORDER if pid in api.REGISTRY[ident].props and api.REGISTRY[ident].trusted]
     nproc = nproc or min(16, max(1, len(jobs)))
@@ -63,4 +70,37 @@ def run_verification(pid, nproc=None):
         ctx = mp.get_context('fork')
         with ctx.Pool(nproc) as pool:
             results = pool.map(_verify_one, jobs, chunksize=1)
-    return results, time.time() - t0
+    return merge_cases(results), time.time() - t0
+
+
+_RANK = {'PROVED': 0, 'TRUSTED': 0, 'UNDECIDED': 1, 'UNSUPPORTED': 2, 'ERROR': 3, 'REFUTED': 4}
+_ORANK = {'proved': 0, 'unknown': 1, 'refuted': 2}
+
+
+def merge_cases(results):
+    """results of the split cases of one function are merged into one record (worst status wins, obligations by name)"""
+    out, byid = [], {}
+    for r in results:
+        if r['ident'] not in byid:
+            byid[r['ident']] = r
+            out.append(r)
+            continue
+        m = byid[r['ident']]
+        if _RANK.get(r['status'], 3) > _RANK.get(m['status'], 3):
+            m['status'], m['detail'] = r['status'], r.get('detail', '')
+        m['paths'] += r.get('paths', 0)
+        m['vcs'] += r.get('vcs', 0)
+        m['time_s'] = round(m['time_s'] + r.get('time_s', 0), 3)
+        m['assumptions'] = sorted(set(m.get('assumptions', [])) | set(r.get('assumptions', [])))
+        for name, o in r.get('obligations', {}).items():
+            if name not in m['obligations']:
+                m['obligations'][name] = o
+                continue
+            mo = m['obligations'][name]
+            mo['paths'] += o.get('paths', 0)
+            mo['time_s'] = round(mo['time_s'] + o.get('time_s', 0), 3)
+            if _ORANK[o['status']] > _ORANK[mo['status']]:
+                for k in ('status', 'note', 'model', 'counterexample'):
+                    if k in o:
+                        mo[k] = o[k]
+    return out
